@@ -9,6 +9,7 @@
 import Jb.Proofs.Align
 import Mathlib.Data.Rat.Floor
 import Mathlib.Tactic.NormNum
+import Jb.Proofs.SynthBridge2
 
 set_option linter.unusedSectionVars false
 
@@ -66,5 +67,18 @@ theorem trailing_kept_after_fix :
   rw [createWithAlignment, alignLoop_unknown_last true _ 2 0 0 0 [] (-1) (-1) (by norm_num)
     (by simp) (by simp)]
   norm_num [estimateDuration, roundMax1_def, Nat.floor_eq_iff]
+
+/-! ### for the whole library (`Jb/Proofs/SynthBridge2.lean`) -/
+
+/-- **C09 from the voice files** (statement: `Synth.durations_alignment`). On a well-formed voice set with alignment on and
+    one time pair per label, the durations `Engine::generator` uses are `createWithAlignment` of the interpolated duration
+    model and the caller's times: one duration ≥ 1 per state of every label (no label vanishes), the waveform has
+    `frame_period × Σ durations` samples, and for every label with a known end the cumulative law of `aligned_cumulative`
+    holds with the caller's time list. -/
+alias library_alignment_law := Synth.durations_alignment
+
+/-- … in particular the frames up to and including a label with known end `e` number `round(e)` whenever its group gets more
+    than one frame per state (statement: `Synth.durations_alignment_round_end`). -/
+alias library_alignment_round_end := Synth.durations_alignment_round_end
 
 end Jb.C09
